@@ -899,14 +899,19 @@ Section Queries.
   Definition enforce_with_ctx4 (s : estate) (rk pk ek mk : text) (rv : list value) : outcome bool :=
     enforce_core ptab (e_enabled s) (e_model s) (e_mexprs s) (e_fs s) rk pk ek mk (tok pk s_eft) rv.
 
-  (* rbac_api.rs get_implicit_users_for_permission *)
+  (* rbac_api.rs get_implicit_users_for_permission: `if let Ok(r) = self.enforce(req)`
+     ignores an Err; a panic inside enforce (e.g. "unsupported effect") unwinds
+     through the helper: None *)
   Definition implicit_users (s : estate) (perm : rule) : option (list text) :=
     match m_values (e_model s) s_p s_p 0, m_values (e_model s) s_g s_g 1 with
     | Some subjects, Some roles =>
       let cand := subjects ++ flat_map (fun r => get_users (f_rm (e_fs s)) r None) roles in
       let users := filter (fun u => negb (memb teqb u roles)) cand in
-      Some (dedup (filter (fun u => match enforce s (map VStr (u :: perm)) with
-                                    | Ok true => true | _ => false end) users) [])
+      if existsb (fun u => match enforce s (map VStr (u :: perm)) with
+                           | Panic => true | _ => false end) users
+      then None
+      else Some (dedup (filter (fun u => match enforce s (map VStr (u :: perm)) with
+                                         | Ok true => true | _ => false end) users) [])
     | _, _ => None
     end.
 
